@@ -29,6 +29,7 @@ class Arg:
         self.req = []
         self.clear = self.sort = self.uniq = self.uniq_err = False
         self.init = None
+        self.display = []      # display options (hidden, nodef): no influence on the evaluation
         self.mix = False
         self.positional = False
 
@@ -81,6 +82,7 @@ class Arg:
             o.append('init=' + self.init)
         if self.mix:
             o.append('mix')
+        o += self.display
         return 'arg:%s:%s:%s' % (self.keyspec(), self.slot, '/'.join(o))
 
 
@@ -117,6 +119,11 @@ def gen_config(rng, nargs, kinds=KINDS, features=True, prefix_family=True, posit
             a.init = str(rng.range(-9, 99))
         if features and a.kind == 's' and rng.chance(1, 3):
             a.init = hx(rng.choice(['dflt', 'k', 'X0']))
+        # display options: hiding an argument / not printing its default changes the usage only
+        if features and rng.chance(1, 5):
+            a.display.append('hidden')
+        if features and a.kind not in ('b', 'lc') and rng.chance(1, 8):
+            a.display.append('nodef')
         if a.kind == 'lc' and features:
             a.mix = rng.chance(1, 4)
             if rng.chance(1, 3):
